@@ -1267,7 +1267,10 @@ class Attribute(DomainMapping):
     def _is_iterable_(self):
         if not self._wrapped_field_:
             return False
-        return self._wrapped_field_.is_iterable
+        # also collections of builtins (e.g. List[int]) are iterable attributes.
+        return self._wrapped_field_.is_container and hasattr(
+            self._wrapped_field_.container_type, "__iter__"
+        )
 
     @cached_property
     def _wrapped_type_(self):
